@@ -336,6 +336,14 @@ def entryLiveAt (ttl tti : Option Nat) (now : Nat) (va : Option Nat) (e : EntryV
 a key that is not resident): if its weight fits in the room the residents leave, it is
 resident afterwards and no resident that is still unexpired has left. -/
 def fitsC03 (cap : Nat) (ttl tti : Option Nat) (w : Nat → Nat → Nat) : Trace → Bool
+  | (.snap, .snap before) :: (.freq _, .freq _) :: (.ins k v, .ok) :: (.snap, .snap after) :: rest =>
+    (let fresh := !(before.entries.any (fun e => e.key == k))
+     let fits := decide (snapWeight before + w k v ≤ cap)
+     !(fresh && fits) ||
+       (after.entries.any (fun e => e.key == k && e.val == v) &&
+        before.entries.all (fun e => !(entryLiveAt ttl tti after.now none e) ||
+          after.entries.any (fun e' => e'.key == e.key)))) &&
+    fitsC03 cap ttl tti w ((.snap, .snap after) :: rest)
   | (.snap, .snap before) :: (.ins k v, .ok) :: (.snap, .snap after) :: rest =>
     (let fresh := !(before.entries.any (fun e => e.key == k))
      let fits := decide (snapWeight before + w k v ≤ cap)
@@ -348,16 +356,29 @@ def fitsC03 (cap : Nat) (ttl tti : Option Nat) (w : Nat → Nat → Nat) : Trace
   | [] => true
 
 /-- Part B on the concurrent cache: `sync, snap, ins k v, sync, snap` with empty queues. -/
+def fitsCheckSync (cap : Nat) (ttl tti : Option Nat) (w : Nat → Nat → Nat) (before : Snap)
+    (k v : Nat) (after : Snap) : Bool :=
+  let fresh := !(before.entries.any (fun e => e.key == k))
+  let quiet := before.rq == 0 && before.wq == 0 && after.rq == 0 && after.wq == 0
+  let fits := decide (snapWeight before + w k v ≤ cap)
+  let lives := !(ttl == some 0) && !(tti == some 0)      -- not expired the moment it is inserted
+  !(fresh && quiet && fits && lives) ||
+    (after.entries.any (fun e => e.key == k && e.val == v) &&
+     before.entries.all (fun e => !(entryLiveAt ttl tti after.now after.va e) ||
+       after.entries.any (fun e' => e'.key == e.key)))
+
 def fitsC03Sync (cap : Nat) (ttl tti : Option Nat) (w : Nat → Nat → Nat) : Trace → Bool
   | (.sync, .ok) :: (.snap, .snap before) :: (.ins k v, .ok) :: (.sync, .ok) :: (.snap, .snap after) :: rest =>
-    (let fresh := !(before.entries.any (fun e => e.key == k))
-     let quiet := before.rq == 0 && before.wq == 0 && after.rq == 0 && after.wq == 0
-     let fits := decide (snapWeight before + w k v ≤ cap)
-     !(fresh && quiet && fits) ||
-       (after.entries.any (fun e => e.key == k && e.val == v) &&
-        before.entries.all (fun e => !(entryLiveAt ttl tti after.now after.va e) ||
-          after.entries.any (fun e' => e'.key == e.key)))) &&
+    fitsCheckSync cap ttl tti w before k v after &&
     fitsC03Sync cap ttl tti w ((.sync, .ok) :: (.snap, .snap after) :: rest)
+  | (.sync, .ok) :: (.snap, .snap before) :: (.ins k v, .ok) :: (.snap, .snap mid) :: (.sync, .ok) ::
+      (.snap, .snap after) :: rest =>
+    fitsCheckSync cap ttl tti w before k v after &&
+    fitsC03Sync cap ttl tti w ((.snap, .snap mid) :: (.sync, .ok) :: (.snap, .snap after) :: rest)
+  | (.sync, .ok) :: (.snap, .snap before) :: (.freq _, .freq _) :: (.ins k v, .ok) :: (.snap, .snap mid) ::
+      (.sync, .ok) :: (.snap, .snap after) :: rest =>
+    fitsCheckSync cap ttl tti w before k v after &&
+    fitsC03Sync cap ttl tti w ((.snap, .snap mid) :: (.sync, .ok) :: (.snap, .snap after) :: rest)
   | _ :: rest => fitsC03Sync cap ttl tti w rest
   | [] => true
 
@@ -369,6 +390,119 @@ def oracleC03 (kind : Kind) (cap ttl tti : Option Nat) (w : Nat → Nat → Nat)
    | some c, .unsync => fitsC03 c ttl tti w t
    | some c, .sync => fitsC03Sync c ttl tti w t
    | none, _ => true)
+
+/-! ### C12 / C13: LRU victims and TinyLFU admission (white-box) -/
+
+def weightOfKey (sn : Snap) (k : Nat) : Nat :=
+  match sn.entries.find? (fun e => e.key == k) with
+  | some e => e.weight
+  | none => 0
+
+def freqOfKey (sn : Snap) (k : Nat) : Nat :=
+  match sn.freqs.find? (fun kf => kf.1 == k) with
+  | some kf => kf.2
+  | none => 0
+
+/-- Shortest prefix of the recency order whose combined weight reaches `need`
+(`none` if even the whole list does not). -/
+def shortestPrefix (sn : Snap) (need : Nat) : List Nat → Nat → List Nat → Option (List Nat)
+  | rest, got, acc =>
+    if got ≥ need then some acc
+    else match rest with
+      | [] => none
+      | k :: rest' => shortestPrefix sn need rest' (got + weightOfKey sn k) (acc ++ [k])
+
+def lruOrder (sn : Snap) : List Nat := sn.prob.map (·.key)
+
+def keysOf (sn : Snap) : List Nat := sn.entries.map (·.key)
+
+def sameKeys (a b : List Nat) : Bool := a.all (b.contains ·) && b.all (a.contains ·)
+
+/-- No resident is past an expiry deadline and the cache is not over capacity: the only thing
+the next operation's maintenance could do is nothing. -/
+def calm (cap : Nat) (ttl tti : Option Nat) (sn : Snap) : Bool :=
+  decide (sn.ws ≤ cap) && sn.entries.all (entryLiveAt ttl tti sn.now sn.va) &&
+  sn.entries.all (fun e => e.aoOk) && sn.prob.all (·.current)
+
+/-- The admission decision for candidate `k` of weight `w` and popularity `f` against the
+residents of `before`, by the closed formula of the property. `some victims` = admitted. -/
+def predictAdmission (before : Snap) (w f : Nat) : Option (List Nat) :=
+  match shortestPrefix before w (lruOrder before) 0 [] with
+  | none => none
+  | some pre => if f > (pre.map (freqOfKey before)).sum then some pre else none
+
+def admissionOk (cap : Nat) (ttl tti : Option Nat) (wf : Nat → Nat → Nat)
+    (before : Snap) (k v f : Nat) (after : Snap) : Bool :=
+  let w := wf k v
+  let fresh := !(keysOf before).contains k
+  let applies := fresh && calm cap ttl tti before && decide (w ≤ cap) && decide (before.ws + w > cap)
+  !applies ||
+    (match predictAdmission before w f with
+     | some victims =>
+       sameKeys (keysOf after) (k :: (keysOf before).filter (fun x => !victims.contains x))
+     | none => sameKeys (keysOf after) (keysOf before))
+
+/-- Single-threaded cache: `snap, freq k, ins k v, snap`. -/
+def admitC13 (cap : Nat) (ttl tti : Option Nat) (wf : Nat → Nat → Nat) : Trace → Bool
+  | (.snap, .snap before) :: (.freq k, .freq f) :: (.ins k' v, .ok) :: (.snap, .snap after) :: rest =>
+    (k != k' || admissionOk cap ttl tti wf before k v f after) &&
+      admitC13 cap ttl tti wf ((.snap, .snap after) :: rest)
+  | _ :: rest => admitC13 cap ttl tti wf rest
+  | [] => true
+
+/-- Concurrent cache with maintenance after every operation:
+`sync, snap, freq k, ins k v, sync, snap` with empty queues. -/
+def admitC13Sync (cap : Nat) (ttl tti : Option Nat) (wf : Nat → Nat → Nat) : Trace → Bool
+  | (.sync, .ok) :: (.snap, .snap before) :: (.freq k, .freq f) :: (.ins k' v, .ok) :: (.sync, .ok) ::
+      (.snap, .snap after) :: rest =>
+    (k != k' || !(before.rq == 0 && before.wq == 0 && after.rq == 0 && after.wq == 0) ||
+      admissionOk cap ttl tti wf before k v f after) &&
+      admitC13Sync cap ttl tti wf ((.sync, .ok) :: (.snap, .snap after) :: rest)
+  | (.sync, .ok) :: (.snap, .snap before) :: (.freq k, .freq f) :: (.ins k' v, .ok) :: (.snap, .snap mid) ::
+      (.sync, .ok) :: (.snap, .snap after) :: rest =>
+    (k != k' || !(before.rq == 0 && before.wq == 0 && after.rq == 0 && after.wq == 0) ||
+      admissionOk cap ttl tti wf before k v f after) &&
+      admitC13Sync cap ttl tti wf ((.snap, .snap mid) :: (.sync, .ok) :: (.snap, .snap after) :: rest)
+  | _ :: rest => admitC13Sync cap ttl tti wf rest
+  | [] => true
+
+def oracleC13 (kind : Kind) (cap ttl tti : Option Nat) (wf : Nat → Nat → Nat) (t : Trace) : Bool :=
+  match cap, kind with
+  | none, _ => true
+  | some c, .unsync => admitC13 c ttl tti wf t
+  | some c, .sync => admitC13Sync c ttl tti wf t
+
+/-- Growth eviction on the single-threaded cache: a snapshot over capacity (all residents
+unexpired), then a lookup: exactly the shortest LRU prefix covering the excess leaves
+(everything, if even that does not suffice; at most one batch). -/
+def growthC12 (cap : Nat) (ttl tti : Option Nat) (batch : Nat) : Trace → Bool
+  | (.snap, .snap before) :: (op, ob) :: (.snap, .snap after) :: rest =>
+    (let lookup := match op with
+       | .has _ => true
+       | .get _ => true
+       | _ => false
+     let settled := before.entries.all (entryLiveAt ttl tti after.now none) &&
+       before.entries.all (fun e => e.aoOk) && before.prob.all (·.current)
+     let over := decide (before.ws > cap)
+     !(lookup && settled && over && decide (before.entries.length ≤ batch)) ||
+       (let victims := match shortestPrefix before (before.ws - cap) (lruOrder before) 0 [] with
+          | some pre => pre
+          | none => lruOrder before
+        sameKeys (keysOf after) ((keysOf before).filter (fun x => !victims.contains x)))) &&
+    (match ob with
+     | .panic _ => true
+     | _ => growthC12 cap ttl tti batch ((.snap, .snap after) :: rest))
+  | _ :: rest => growthC12 cap ttl tti batch rest
+  | [] => true
+
+/-- C12: whenever residents leave for size — at an admission (same patterns as C13) or to
+work off an excess — they are the shortest sufficient prefix of the recency order. -/
+def oracleC12 (kind : Kind) (cap ttl tti : Option Nat) (wf : Nat → Nat → Nat) (batch : Nat)
+    (t : Trace) : Bool :=
+  match cap, kind with
+  | none, _ => true
+  | some c, .unsync => admitC13 c ttl tti wf t && growthC12 c ttl tti batch t
+  | some c, .sync => admitC13Sync c ttl tti wf t
 
 end Spec
 end MiniMoka
